@@ -80,8 +80,9 @@ PROPS = {
     },
     "C03": {
         "theorems": ["C03_raw_sound", "C03_task_constraints", "C03_optional_constraints", "C03_scheduleN_lower", "C03_scheduleN_enforced",
-                     "ContiguousOK_pairwise", "gaps_pairwise", "C03_spec_sound"],
-        "modules": ["SpecSound"],
+                     "ContiguousOK_pairwise", "gaps_pairwise", "C03_spec_sound",
+                     "C05_sound_groups", "C05_complete_groups", "C05_feasible_iff_groups"],
+        "modules": ["SpecSound", "Groups"],
         "profiles": [("taskc", 0.45), ("focus_taskc", 0.35), ("all", 0.2)],
         "relevant": lambda o: owner_in(o, (), TASK_CLASSES),
         "spec": "C03",
@@ -154,7 +155,7 @@ PROPS = {
         "fieldtable": True,
         "acc_grid": True,
         "nontrivial": lambda s: True,
-        "rule": "ACC: an exhaustive boundary grid (467 cases): every constructor with values {-1,0,1,2,...} around each "
+        "rule": "ACC: an exhaustive boundary grid (693 cases; the periodic classes with every list of one or two intervals around the period): every constructor with values {-1,0,1,2,...} around each "
                 "bound, duplicate names per kind, selections of 0..3 workers x n in -1..4, cumulative sizes -1..3, optional-"
                 "task rules on mandatory / optional tasks, force-apply over mandatory / optional constraints, resource "
                 "constraints on assigned / unassigned / cumulative resources, every self-contained constructor before a "
@@ -246,8 +247,9 @@ PROPS = {
                      "C05_sound_core", "C05_feasible_iff", "envOf_schedOf_task", "envOf_schedOf_busy", "core_raw_sound",
                      "agree_own", "agree_own2", "envOf_indicator", "eval_congr2_term", "eval_congr2_fml", "reachable_wf",
                      "InCoreS.of_reachable", "Exact_ex_inCoreS", "busy_le", "Exact_ex2_inCoreS", "multi_extend", "C05_feasible_iff_multi", "Multi_ex_inCoreS", "fragmentMultiB_sound",
-                     "C05_feasible_iff_clean"],
-        "modules": ["Exact", "Multi", "CleanSpec"],
+                     "C05_feasible_iff_clean", "C05_sound_groups", "C05_complete_groups", "C05_feasible_iff_groups",
+                     "fragmentGroupsB_sound", "Groups_ex_model"],
+        "modules": ["Exact", "Multi", "CleanSpec", "Groups"],
         "profiles": [("all", 0.3), ("frag", 0.2), ("resc", 0.1), ("fol", 0.15), ("focus_resc", 0.15), ("focus_taskc", 0.1)],
         "relevant": lambda o: True,
         "spec": None,
@@ -296,14 +298,14 @@ PROPS = {
     "C07": {
         "theorems": ["incLoop_spec", "C07_anytime", "C07_optimal", "incLoop_bound", "C07_bound_stop", "C07_weighted",
                      "C07_weighted_goal", "C07_core_attainable", "C07_core_lower_bound", "C07_weighted_attainable",
-                     "C07_optimal_valid"],
-        "modules": ["Exact", "Multi", "C07V"],
+                     "C07_optimal_valid", "C07_groups_attainable"],
+        "modules": ["Exact", "Multi", "C07V", "Groups"],
         "profiles": [("obj", 1.0)],
         "relevant": lambda o: owner_in(o, ("objective", "indicator:")),
         "spec": None,
         "exact": True,
         "sm_focus": "solve",
-        "run_profiles": ["obj", "obj", "focus_multiobj"],
+        "run_profiles": ["obj", "obj", "focus_multiobj"], "run_needs_driver": True,
         "n_sm": {"quick": 300, "thorough": 4000}, "n_run": {"quick": 60, "thorough": 600},
         "run_check": __import__("harness.solverprops", fromlist=["x"]).run_c07,
         "nontrivial": lambda s: any(d["op"] == "objective" for d in s),
@@ -343,7 +345,7 @@ PROPS = {
         "relevant": lambda o: False,
         "spec": None,
         "sm_profiles": ["obj", "taskc", "core"], "run_profiles": ["obj", "obj", "obj", "taskc"],
-        "n_sm": {"quick": 150, "thorough": 3000}, "n_run": {"quick": 70, "thorough": 800},
+        "n_sm": {"quick": 150, "thorough": 3000}, "n_run": {"quick": 100, "thorough": 800},
         "run_check": __import__("harness.solverprops", fromlist=["x"]).run_c13,
         "nontrivial": lambda s: True,
         "rule": "SM: random sequences (1..8) of initialize / export / solve / find_another* under both optimisers, debug, "
@@ -356,8 +358,8 @@ PROPS = {
         "n": {"quick": 10, "thorough": 50},
     },
     "C15": {
-        "theorems": ["C15_core_cfg_free", "C15_tracked_equiv", "C01_task_timing", "C15_core_verdict_cfg_free"],
-        "modules": ["Exact"],
+        "theorems": ["C15_core_cfg_free", "C15_tracked_equiv", "C01_task_timing", "C15_core_verdict_cfg_free", "C15_groups_verdict_cfg_free"],
+        "modules": ["Exact", "Groups"],
         "profiles": [("all", 0.6), ("obj", 0.4)],
         "relevant": lambda o: True,
         "spec": None,
@@ -594,6 +596,10 @@ def check_script(driver, script, spec, cfg=None):
         res["fragment"] = driver.send_multi("(fragment)")[1] == ["true"]
         res["fragment_multi"] = sum(1 for d in script if d["op"] == "objective") >= 2 and \
             driver.send_multi("(fragment-multi)")[1] == ["true"]
+        res["fragment_groups"] = False
+        ans = driver.send_multi("(fragment-groups)")[1]
+        if ans and ans[0].startswith("true "):
+            res["fragment_groups"] = int(ans[0].split()[1]) > 0
     except Exception:  # noqa: BLE001
         res["fragment"] = False
     # EVAL: the computable evaluator of the Lean development against z3's own evaluation of the real assertions
@@ -652,6 +658,11 @@ def run_chunk(args):
                 summary["dist"]["scripts_inside_exactness_fragment"] = summary["dist"].get("scripts_inside_exactness_fragment", 0) + 1
                 if not (r["decl_diffs"] or r["rel"] or r["oth"] or r["init_error"]):
                     summary["dist"]["…of_which_real_assertions_equal_model"] = summary["dist"].get("…of_which_real_assertions_equal_model", 0) + 1
+            if r.get("fragment_groups"):
+                k = "scripts_with_task_groups_inside_the_group_exactness_theorems"
+                summary["dist"][k] = summary["dist"].get(k, 0) + 1
+                if not (r["decl_diffs"] or r["rel"] or r["oth"] or r["init_error"]):
+                    summary["dist"]["…with_groups_of_which_real_assertions_equal_model"] = summary["dist"].get("…with_groups_of_which_real_assertions_equal_model", 0) + 1
             if r.get("fragment_multi"):
                 summary["dist"]["scripts_with_several_objectives_inside_the_multi_objective_theorems"] = \
                     summary["dist"].get("scripts_with_several_objectives_inside_the_multi_objective_theorems", 0) + 1
